@@ -74,6 +74,10 @@ def concretise(hist, rnd):
             out.append("freenull")
         elif c == "SetTB":
             out.append("set TB %s" % val(a, rnd, 10.0))
+        elif c == "PresetPoles":
+            out.append("copypoles")
+        elif c == "SetBigA":
+            out.append("setm Au 2 2 %s" % float(rnd.choice([-1, 1]) * rnd.uniform(0.5e5, 2e5)).hex())
         elif c == "SetTachyon":
             out.append("setm ml2 1 1 %s" % val("neg", rnd, 1e5))
         elif c == "Set":
